@@ -179,6 +179,11 @@ def _hh_roundtrip(w, d, k, phi, b0, ln, c0, c1, na, nr):
     t = HH.HeavyHitters.load(f)
     ok = same_state(s, t, ("width", "depth", "max_key_len", "phi", "uint_maxval", "lhh", "lhh_count", "key_lens", "n_added_records"))
     ok = ok and t.n_added() == s.n_added() and t.n_records() == s.n_records() and merges(s, t)
+    # ... and into shared memory
+    t2 = HH.HeavyHitters.load(f, True)
+    ok = ok and same_state(s, t2, ("width", "depth", "max_key_len", "phi", "uint_maxval", "lhh", "lhh_count", "key_lens", "n_added_records")) and hasattr(t2, "shm")
+    _drop(t2)
+    del GEN[1:]
     if MODE == "shim":
         # the cache is rebuilt exactly once, after the tables were copied
         ok = ok and len(GEN) == 1 and GEN[0][0] == id(t) and GEN[0][1] is None and GEN[0][2] == snap_array(s.lhh_count)
@@ -191,7 +196,7 @@ def check_hh(b0: int, ln: int, c0: int, c1: int, na: int, nr: int) -> bool:
     post: _ == True
     """
     ok = True
-    for (w, d, k) in ((1, 1, 1), (2, 1, 2), (3, 2, 1)):
+    for (w, d, k) in ((1, 1, 1), (2, 1, 2), (3, 2, 1), (1, 1, 4)):
         ok = ok and _hh_roundtrip(w, d, k, None, b0, ln, c0, c1, na, nr)
     return ok
 
@@ -247,7 +252,7 @@ def real_hll(p, seed, r0, r1):
 
 def real_hh(b0, ln, c0, c1, na, nr):
     msgs = []
-    for (w, d, k) in ((1, 1, 1), (2, 1, 2), (3, 2, 1)):
+    for (w, d, k) in ((1, 1, 1), (2, 1, 2), (3, 2, 1), (1, 1, 4), (1, 1, 16), (5, 3, 7)):
         try:
             ok = _hh_roundtrip(w, d, k, None, b0, ln, c0, c1, na, nr)
         except Exception as e:
